@@ -95,7 +95,7 @@ def registered():
     return [c["property_id"] for c in m["checks"]]
 
 
-def do_run(sel=""):
+def do_run(sel="", target_only=False):
     props = registered()
     table = {}
     sdir = os.path.join(VERIF, "seeded")
@@ -110,7 +110,7 @@ def do_run(sel=""):
         try:
             subprocess.run(["git", "-C", dst, "apply", patch], check=True)
             env = dict(ENV, VERIF_REPO=dst, VERIF_NO_RETRY="1")  # (the matrix only asks "exit 1 or not"; no second attempts)
-            order = [p for p in props if p == target] + [p for p in props if p != target]
+            order = [p for p in props if p == target] + [p for p in props if p != target and not target_only]
             for p in order:
                 t0 = time.time()
                 c = subprocess.run([os.path.join(VERIF, "check"), p, "quick"], env=env, capture_output=True, text=True)
@@ -127,6 +127,10 @@ def do_run(sel=""):
             prev = json.load(open(rp))
         except Exception:
             prev = {}
+        if target_only and isinstance(prev.get(name), dict):
+            merged = dict(prev[name])
+            merged.update(row)
+            row = merged
         prev[name] = row
         json.dump(prev, open(rp, "w"), indent=1)
         caught = [p for p, r in row.items() if r["rc"] == 1]
@@ -152,5 +156,7 @@ if __name__ == "__main__":
         do_import(sys.argv[2])
     elif len(sys.argv) >= 2 and sys.argv[1] == "run":
         do_run(sys.argv[2] if len(sys.argv) > 2 else "")
+    elif len(sys.argv) >= 2 and sys.argv[1] == "target":
+        do_run(sys.argv[2] if len(sys.argv) > 2 else "", target_only=True)
     else:
         print(__doc__)
